@@ -21,6 +21,30 @@ import (
 	"github.com/akrennmair/updog/zzverif/vsched"
 )
 
+// panicOrigin looks at the stack of a recovered panic: the first frame below panic() that is not the Go runtime tells
+// whether the panic was raised by the harness ("harness") or by updog / a library it called ("code under test").
+func panicOrigin(stack string) string {
+	lines := strings.Split(stack, "\n")
+	seenPanic := false
+	for _, l := range lines {
+		if strings.HasPrefix(l, "\t") {
+			continue // file:line
+		}
+		if strings.HasPrefix(l, "panic(") {
+			seenPanic = true
+			continue
+		}
+		if !seenPanic || l == "" || strings.HasPrefix(l, "runtime.") || strings.HasPrefix(l, "runtime/") {
+			continue
+		}
+		if strings.Contains(l, "/zzverif/") || strings.HasPrefix(l, "main.") {
+			return "harness"
+		}
+		return "code under test"
+	}
+	return "harness"
+}
+
 func main() {
 	if len(os.Args) < 3 {
 		fmt.Fprintln(os.Stderr, "usage: vcheck run Cxx quick|thorough | vcheck replay <file> | vcheck worker <job>")
@@ -34,7 +58,15 @@ func main() {
 			case vsched.HarnessError:
 				fmt.Fprintf(os.Stderr, "HARNESS ERROR: %s\n", e.Msg)
 			default:
-				fmt.Fprintf(os.Stderr, "HARNESS ERROR (panic): %v\n%s\n", r, debug.Stack())
+				st := string(debug.Stack())
+				if os.Args[1] == "worker" && panicOrigin(st) == "code under test" {
+					// an unrecovered panic raised inside updog (or a library it called) while a worker drove it: an
+					// observation about the code, reported by the parent with the job as replay case
+					fmt.Fprintf(os.Stderr, "panic: %v [raised in the code under test]\n%s\n", r, st)
+					cleanup()
+					os.Exit(3)
+				}
+				fmt.Fprintf(os.Stderr, "HARNESS ERROR (panic): %v\n%s\n", r, st)
 			}
 			cleanup()
 			os.Exit(2)
